@@ -620,11 +620,7 @@ fn impl_file(bytes: &[u8]) -> Result<Cells, String> {
     }
 }
 
-fn model_file(items: &[Item], drv: &mut Driver) -> Result<Cells, String> {
-    let mut sorted: Vec<&Item> = items.iter().collect();
-    sorted.sort_by_key(|i| i.pos());
-    let req = if sorted.is_empty() { "-".to_string() } else { sorted.iter().map(|i| i.model_wire()).collect::<Vec<_>>().join(";") };
-    let reply = drv.ask(&format!("sheet {req}"));
+fn parse_cells(reply: &str) -> Result<Cells, String> {
     if let Some(rest) = reply.strip_prefix("ok ") {
         let mut out = vec![];
         if rest != "-" {
@@ -636,8 +632,60 @@ fn model_file(items: &[Item], drv: &mut Driver) -> Result<Cells, String> {
         out.sort();
         Ok(out)
     } else {
-        Err(reply)
+        Err(reply.to_string())
     }
+}
+
+/// `si` values above this are read in a child process: a reader that sizes a table by `si` aborts the
+/// process (allocation failure) or fills the memory, which `catch_unwind` cannot contain
+const HUGE_SI: u32 = 1_000_000;
+
+fn has_huge_si(items: &[Item]) -> bool {
+    items.iter().any(|i| matches!(i, Item::Master { si, .. } | Item::MasterRaw { si, .. } | Item::Child { si, .. } if *si > HUGE_SI))
+}
+
+/// the implementation's result computed by a child process of this binary (env `C15_PROBE_FILE`),
+/// killed after 15 s: `Err("abort")` / `Err("timeout")` when it does not survive the file
+fn impl_file_child(items: &[Item], layout_seed: u64) -> Result<Cells, String> {
+    use std::process::{Command, Stdio};
+    let exe = std::env::current_exe().expect("current_exe");
+    let mut child = Command::new(exe)
+        .env("C15_PROBE_FILE", format!("{}:{}", layout_seed, items_wire(items)))
+        .stdin(Stdio::null())
+        .stdout(Stdio::piped())
+        .stderr(Stdio::null())
+        .spawn()
+        .expect("spawn probe child");
+    let t0 = std::time::Instant::now();
+    loop {
+        match child.try_wait().expect("wait") {
+            Some(st) => {
+                let mut out = String::new();
+                use std::io::Read;
+                let _ = child.stdout.take().unwrap().read_to_string(&mut out);
+                if !st.success() {
+                    return Err("abort".into());
+                }
+                return parse_cells(out.trim_end());
+            }
+            None => {
+                if t0.elapsed().as_secs() >= 15 {
+                    let _ = child.kill();
+                    let _ = child.wait();
+                    return Err("timeout".into());
+                }
+                std::thread::sleep(std::time::Duration::from_millis(5));
+            }
+        }
+    }
+}
+
+fn model_file(items: &[Item], drv: &mut Driver) -> Result<Cells, String> {
+    let mut sorted: Vec<&Item> = items.iter().collect();
+    sorted.sort_by_key(|i| i.pos());
+    let req = if sorted.is_empty() { "-".to_string() } else { sorted.iter().map(|i| i.model_wire()).collect::<Vec<_>>().join(";") };
+    let reply = drv.ask(&format!("sheet {req}"));
+    parse_cells(&reply)
 }
 
 /// The property as stated: every member cell (a `t="shared"` cell with the group's `si` inside the
@@ -692,7 +740,11 @@ struct FileOut {
 
 fn file_sig(items: &[Item], imp: &Result<Cells, String>, want: &Cells) -> String {
     let Ok(got) = imp else {
-        return format!("file:{}", imp.as_ref().err().unwrap().split(':').next().unwrap_or("err"));
+        let e = imp.as_ref().err().unwrap();
+        if has_huge_si(items) && (e == "abort" || e == "timeout") {
+            return "file:si-huge-allocation".into();
+        }
+        return format!("file:{}", e.split(':').next().unwrap_or("err"));
     };
     let gm: BTreeMap<_, _> = got.iter().cloned().collect();
     let wm: BTreeMap<_, _> = want.iter().cloned().collect();
@@ -733,8 +785,11 @@ fn file_sig(items: &[Item], imp: &Result<Cells, String>, want: &Cells) -> String
 }
 
 fn run_file(items: &[Item], layout_seed: u64, drv: &mut Driver) -> FileOut {
-    let bytes = build_file(items, layout_seed);
-    let imp = impl_file(&bytes);
+    let imp = if has_huge_si(items) {
+        impl_file_child(items, layout_seed)
+    } else {
+        impl_file(&build_file(items, layout_seed))
+    };
     let model = model_file(items, drv);
     let want = oracle_file(items, drv);
     let mut fails = vec![];
@@ -749,6 +804,7 @@ fn run_file(items: &[Item], layout_seed: u64, drv: &mut Driver) -> FileOut {
     if imp != model {
         let sig = match &want {
             Some(w) if imp.as_ref().ok() != Some(w) => file_sig(items, &imp, w),
+            _ if has_huge_si(items) && matches!(&imp, Err(e) if e == "abort" || e == "timeout") => "file:si-huge-allocation".to_string(),
             _ => "file:impl_model_differ".to_string(),
         };
         fails.push(("impl_vs_model".to_string(), sig));
@@ -809,6 +865,11 @@ fn gen_file(rng: &mut Rng) -> Vec<Item> {
     rng.shuffle(&mut sis);
     if rng.chance(1, 10) {
         sis[0] += rng.range(1, 40) as u32; // gap in the numbering
+    }
+    if rng.chance(1, 25) {
+        // memory must follow the number of groups, not the value of si
+        let k = rng.below(sis.len() as u64) as usize;
+        sis[k] = *rng.pick(&[1_000_001u32, 16_777_216, 2_147_483_647, 2_147_483_648, u32::MAX - 1, u32::MAX]);
     }
     let mut occupied: Vec<(u32, u32, u32, u32)> = vec![];
     let mut items = vec![];
@@ -1040,6 +1101,26 @@ fn corpus_files() -> Vec<(u64, Vec<Item>)> {
             Item::Child { r: 1, c: 1, si: 0 },
             Item::Child { r: 2, c: 1, si: 0 },
         ]),
+        // regression of the D12 repair (reported by ./check C06): a table sized by `si` — a 1 KB sheet with
+        // si="4294967295" allocated 200 GB; the group must simply work
+        (0, vec![
+            Item::Master { r: 0, c: 1, si: u32::MAX, rect: (0, 1, 2, 1), toks: a1p1() },
+            Item::Child { r: 1, c: 1, si: u32::MAX },
+            Item::Child { r: 2, c: 1, si: u32::MAX },
+        ]),
+        (0, vec![
+            Item::Master { r: 0, c: 1, si: 2_147_483_648, rect: (0, 1, 1, 2), toks: a1p1() },
+            Item::Child { r: 0, c: 2, si: 2_147_483_648 },
+            Item::Master { r: 1, c: 0, si: 0, rect: (1, 0, 2, 0), toks: vec![rf(false, 3, false, 1)] },
+            Item::Child { r: 1, c: 2, si: 2_147_483_648 },
+            Item::Child { r: 2, c: 0, si: 0 },
+        ]),
+        // a follower with a huge si and no master has no formula; the ordinary group next to it works
+        (0, vec![
+            Item::Master { r: 0, c: 1, si: 0, rect: (0, 1, 1, 1), toks: a1p1() },
+            Item::Child { r: 1, c: 1, si: 0 },
+            Item::Child { r: 3, c: 1, si: u32::MAX },
+        ]),
         // row group, master not at the left end of the declared range, non-members around
         (0, vec![
             Item::Value { r: 2, c: 1 },
@@ -1054,6 +1135,13 @@ fn corpus_files() -> Vec<(u64, Vec<Item>)> {
 // ------------------------------------------------------------------------------------------------
 
 fn main() {
+    if let Ok(desc) = std::env::var("C15_PROBE_FILE") {
+        // child mode of `impl_file_child`: read one file with the real reader, print the result
+        let q: Vec<&str> = desc.splitn(2, ':').collect();
+        let items: Vec<Item> = q[1].split('|').map(Item::parse).collect();
+        println!("{}", show_cells(&impl_file(&build_file(&items, q[0].parse().unwrap()))));
+        return;
+    }
     let args = Args::parse();
     let mut drv = Driver::spawn(&args.driver);
     let mut rep = Report::new(
@@ -1067,7 +1155,8 @@ fn main() {
          whole-column / 3-D sheet ranges / structured references); mutated and raw texts are compared impl vs model only. \
          file: xlsx sheets with 1-5 shared groups (column, row, block, single cell) on disjoint ranges anywhere in the sheet, \
          members = any subset of the declared range, master = first member in document order (ECMA-376 18.3.1.40: the master is the \
-         first formula of the group; a member written before its master is outside the generator), si values shuffled with gaps, \
+         first formula of the group; a member written before its master is outside the generator), si values shuffled with gaps and \
+         occasionally huge (up to 2^32-1; such files are read in a child process with a 15 s limit), \
          cells of the range that are not members and cells outside carry values / own formulas / nothing; read with Xlsx::new + \
          worksheet_formula; oracle = translated master per member, own text elsewhere. non-trivial = unit case with >= 1 reference \
          and a non-zero offset, or file with >= 1 member cell; distinct by input text",
@@ -1248,6 +1337,9 @@ fn file_case(items: &[Item], layout_seed: u64, class: &str, drv: &mut Driver, re
                 rep.count("group.master_not_top_left");
             }
         }
+    }
+    if has_huge_si(items) {
+        rep.count("file.huge_si_in_child_process");
     }
     if out.imp.starts_with("err") || out.imp.starts_with("panic") {
         rep.count(&format!("file.impl_{}", &out.imp[..3]));
